@@ -14,3 +14,13 @@ func BenchmarkTransform(b *testing.B) {
 		Transform(&st)
 	}
 }
+
+func BenchmarkHash64(b *testing.B) {
+	ins := make([][]int8, 64)
+	for j := range ins {
+		ins[j] = make([]int8, HashLen)
+	}
+	for i := 0; i < b.N; i++ {
+		Hash64(ins)
+	}
+}
